@@ -549,7 +549,7 @@ def run_case(ctx, k, rng, rec, exprs, metas, tmpdir, combo):
     ctx.count("data:%s" % ("cropped (coordinates do not start at 0)" if offset else "origin 0"))
     n2 = pb["n"] ** 2
     npixels = rng.choice([n2 // 3, n2 // 2, 60]) if use_subset else None
-    seed = rng.choice([None, 7, 11]) if (skind == "nmpfit" and use_subset) else None
+    seed = rng.choice([None, 7, 0, 11, 0]) if (skind == "nmpfit" and use_subset) else None
     strategy = make_strategy(skind, npixels, seed)
     pristine = copy.deepcopy(strategy)
     data = make_data(pb)
@@ -621,8 +621,10 @@ def run_case(ctx, k, rng, rec, exprs, metas, tmpdir, combo):
         ctx.violation("explore:objects-changed", "fit changed the strategy's settings, the model or the data",
                       dict(strategy_same=bool(strategy == pristine), model_same=yaml.dump(model) == model_yaml0,
                            data_same=bool(data_same(data, data0)), **info))
-    # -- repeatability: same call again on the same objects
-    again = do_fit(strategy, model, data, rec)
+    # -- repeatability: same call again on the same objects.  A strategy with its own seed selects its pixels from that seed,
+    #    whatever state numpy's global generator is in (a different one for the second call); an unseeded one draws from the
+    #    global generator, which is put in the same state
+    again = do_fit(strategy, model, data, rec, rngseed=(12345 if seed is None else 987654))
     ctx.explored += 1
     if not results_equal(again, result):
         ctx.violation("explore:repeat:%s" % skind, "the same fit call repeated on the same objects gives another result",
